@@ -45,6 +45,7 @@ type Monitors struct {
 	// tick number since which a task has been in state init without interruption
 	initSince map[string]int
 	alsoProp  string
+	alsoWhat  string
 	// tick number of the last counted (failed) hand-off attempt per task
 	attemptTick map[string]int
 	// every version of every task row: (event, state, counter)
@@ -83,10 +84,12 @@ func (m *Monitors) region(name string) { m.regions[name] = true }
 // violate records a violation; props may name several properties ("C04,C03").
 func (m *Monitors) violate(props, sig, what string) {
 	m.s.logf("VIOLATION %s %s: %s", props, sig, what)
-	if m.alsoProp != "" && !strings.Contains(props, m.alsoProp) {
+	if m.alsoProp != "" && !strings.Contains(props, m.alsoProp) && (m.alsoWhat != "" || strings.HasPrefix(sig, "row:")) {
 		props += "," + m.alsoProp
-		sig = "restart:" + sig
-		what = "the restart itself changed stored rows: " + what
+		if m.alsoWhat != "" {
+			sig = "restart:" + sig
+			what = m.alsoWhat + what
+		}
 	}
 	for _, prop := range strings.Split(props, ",") {
 		m.vios = append(m.vios, vh.Violation{Prop: prop, Sig: sig, What: what, Class: m.s.class})
@@ -107,9 +110,9 @@ func (m *Monitors) OnCrash() {
 		return
 	}
 	m.hit("restart.tables-differ")
-	m.alsoProp = "C06"
+	m.alsoProp, m.alsoWhat = "C06", "the restart itself changed stored rows: "
 	m.OnBatch(m.s.snap, &BatchInfo{Tick: m.s.now, Index: m.s.batches}, next)
-	m.alsoProp = ""
+	m.alsoProp, m.alsoWhat = "", ""
 	m.s.snap = next
 }
 
